@@ -1,6 +1,8 @@
 (* RubiksCube, part 5 (C17, finite part): every move of the model (built on the translated tables) equals the
    physical quarter / half turn of a cube layer, for n = 2..7: vm_compute on the distinct-sticker cube over all
-   18*floor(n/2) moves against the geometric reference embed / rotate3 (a genuinely finite domain). *)
+   18*floor(n/2) moves against the geometric reference embed / rotate3 (a genuinely finite domain).
+   The statement for EVERY n >= 2 is proved symbolically in RubiksCube_Geometry.v / RubiksCube_Layer.v
+   (physical_moves_all); this file is kept as an independent cross-check by evaluation. *)
 Require Import JV.Base.Prelude JV.Base.JaxIndex JV.Base.Codec JV.Base.TimeStep JV.Gen.RubikTables JV.Model.RubiksCube.
 
 Definition physical_all_b (n : Z) : bool := forallb (physical_b n) (all_moves n).
